@@ -152,6 +152,8 @@ impl Column {
         // one block not in cache concurrently, which might cause avalanche
         // in cache. For now, we don't handle it.
 
+        #[cfg(risinglight_verif)]
+        crate::verif::gate("column.get_block").await;
         let key = self.base_block_key.clone().block(block_id);
 
         let mut block_header = BlockMeta::default();
